@@ -142,12 +142,19 @@ def cases(tier):
         cs.append(Case(f"flow:{sk}:k=0", h_modified_ts, dict(skel=sk, iters=0)))
         if sk != "two_parents" or tier == "thorough":
             cs.append(Case(f"flow:{sk}:k=1", h_modified_ts, dict(skel=sk, iters=1), weight=5))
-    fp_skels = ["cherry", "cat3", "internal_sample"] if tier == "quick" else \
-        ["cherry", "cat3", "internal_sample", "tri", "two_parents", "bal4", "root_not_last"]
+    # IEEE-double harness: symbolic eps on the 2-edge tree, the default / a large eps elsewhere
+    # (the bit-vector model of np.nextafter makes symbolic-eps queries on 4 edges exceed 420 s)
+    cs.append(Case("fp-edges:cherry:eps=sym", constrain.h_kernel_fp,
+                   dict(skel="cherry", which=["edges"], eps_value=None, qtimeout_ms=120000),
+                   weight=50))
+    fp_skels = ["cat3", "internal_sample"] if tier == "quick" else \
+        ["cat3", "internal_sample", "tri", "two_parents", "bal4", "root_not_last"]
     for sk in fp_skels:
-        cs.append(Case(f"fp-edges:{sk}", constrain.h_kernel_fp,
-                       dict(skel=sk, which=["edges"], eps_value=None, qtimeout_ms=120000),
-                       weight=50))
+        for ev in ((1e-8,) if tier == "quick" else (1e-8, 1e-6, 1.0)):
+            cs.append(Case(f"fp-edges:{sk}:eps={ev}", constrain.h_kernel_fp,
+                           dict(skel=sk, which=["edges"], eps_value=ev, qtimeout_ms=120000,
+                                case_timeout_s=900 if tier == "thorough" else 420),
+                           weight=50))
     if tier == "thorough":
         from symx import skeletons as SK
         for sk in ["cat3", "bal4", "two_parents", "internal_sample"]:
